@@ -11,6 +11,7 @@ import JoinModel.Gen
 import JoinModel.SpecTables
 import JoinModel.Refinement
 import JoinModel.Lemmas.SpawnAgree
+import JoinModel.Lemmas.ParseHead
 namespace JoinModel.Props.C07
 open JoinModel
 
@@ -76,6 +77,21 @@ theorem spawn_agrees (σ : World) (parent : Option String) (p : Input) (kind : K
     (evalCode σ parent code).res.sim (evalCode σ parent code').res := by
   rw [sync_refines σ parent p kind code hsup hgen, sync_refines σ parent p (spawnOf kind) code' hsup' hgen']
   exact specRun_spawn_sim σ parent p kind hs ha
+
+/-- **The same macro body under `join!` and `join_spawn!` (`try_join!` / `try_join_spawn!`)**, from the tokens: the parser
+    does not know the macro's name, so one token list gives one parsed program; whatever it accepts (any behaviour of syn;
+    default options, distinct `let` names), the two expansions end with the same value or both panic. -/
+theorem accepted_spawn_agrees (o : Oracle) (toks : Toks) (σ : World) (parent : Option String) (p : Input) (kind : Kind)
+    (code code' : Code) (hparse : parseMacroInput o toks = .ok p) (hs : kind.isSpawn = false) (ha : kind.isAsync = false)
+    (hj : p.joiner = none) (hl : p.lazy = none) (htr : p.transpose ≠ some false)
+    (hnames : (p.branches.filterMap fun b => b.pat.map (·.ident)).Nodup)
+    (hgen : gen p kind = .ok code) (hgen' : gen p (spawnOf kind) = .ok code') :
+    (evalCode σ parent code).res.sim (evalCode σ parent code').res := by
+  have base : SupportedBase p :=
+    { noJoiner := hj, noLazy := hl, namesNodup := hnames, firstInitial := parse_first_initial o toks p hparse }
+  exact spawn_agrees σ parent p kind code code' hs ha
+    { base with asyncNotTry := (fun h => by rw [ha] at h; cases h), transposeDefault := htr }
+    { base with asyncNotTry := (fun h => by simp [spawnOf, ha] at h), transposeDefault := htr } hgen hgen'
 
 /-- **`join_async!` / `join_async_spawn!`.**  Under the canonical schedule the two generated codes have the same events and
     the same outcome (the reference semantics does not depend on `is_spawn` for async macros; what tokio adds is outside the
